@@ -14,7 +14,8 @@ META = {
     "position class (first / interior / last, or the only segment): the set of state/action/disturbance "
     "components occurring in the normal form is a subset of the D-table entry; plus: nothing in the "
     "dynamics is memoised or stored on elements (no dependence on earlier networks/steps)"
-    "; parameters of neighbours are restricted per role (lanes of entering / following link, turn rates of the leaving links, capacity of the origin); one-link rings; constructor conformance for links; argument order of the compiled function for a 12-segment link",
+    "; parameters of neighbours are restricted per role (lanes of entering / following link, turn rates of the leaving links, capacity of the origin); one-link rings; constructor conformance for links; argument order of the compiled function for a 12-segment link"
+    "; successor alignment of the compiled function on the merge network",
     "explanation": "The support of a term is a syntactic property of the function the code builds, hence of all "
     "numeric inputs at once; it is read off the normalised next-state term of every local topology class "
     "(cancelling occurrences disappear in the normal form) and compared with the neighbours the METANET "
